@@ -20,7 +20,7 @@ from ops import catalogue
 from ops.catalogue import I
 
 # functions backed by ctx-level / module-level caches and by the _mp/_fp/_iv cross references
-SHARED = ['coulombf', 'coulombg', 'coulombc', 'airyai', 'airybi', 'airyaizero', 'besseljzero', 'besselyzero', 'zeta_rs', 'siegelz',
+SHARED = ['zeta_rs_hi', 'siegelz_hi', 'zeta_rs_hi', 'coulombf', 'coulombg', 'coulombc', 'airyai', 'airybi', 'airyaizero', 'besseljzero', 'besselyzero', 'zeta_rs', 'siegelz',
           'zetazero', 'stieltjes', 'quad', 'quadgl', 'hyp2f1', 'hyp1f1', 'besselj', 'zeta', 'zeta_int', 'bernoulli', 'gamma', 'const_pi',
           'const_euler', 'exp', 'ln', 'sin', 'atan', 'erf', 'ellipk', 'lambertw', 'polylog', 'grampoint', 'siegeltheta', 'nzeros',
           'riemannr', 'primezeta', 'secondzeta', 'backlunds', 'psi', 'factorial', 'loggamma', 'fib', 'det', 'inverse', 'lu_solve', 'expm']
